@@ -81,9 +81,11 @@ def run_roles(prog, rep):
                     probs.append('without a count the selection must be one element per dimension at offset, got %r' % (hs[0][2:],))
             if 'getSpace' not in repr(hs[0][1]):
                 probs.append('the hyperslab is not selected on the data set\'s file space')
-        if out[0] == 'ret' and hs:
-            if not (isinstance(out[1], tuple) and 'create' in repr(out[1][:])):
-                pass
+        if out[0] == 'ret':
+            rv = out[1]
+            if not (isinstance(rv, tuple) and len(rv) == 4 and rv[0] == 'new' and isinstance(rv[2], tuple) and rv[2][:2] == ('call', 'nix::hdf5::DataSpace::create') and rv[2][2] == ('count',)
+                    and 'getSpace' in repr(rv[3])):
+                probs.append('the pair returned is not (memory space created from count, file space of the data set): the memory layout would not be the shape of the caller\'s buffer')
     if sel == 0:
         probs.append('no path selects a hyperslab')
     rule.check(not probs, 'DataSet::offsetCount2DataSpaces|selection', rep.where(f), f.q, 'memory space = count, file space = hyperslab(count, offset)', '; '.join(sorted(set(probs))))
